@@ -252,7 +252,17 @@ pub fn gen(r: &mut Rng, _tier: &str, _i: usize, stats: &mut BTreeMap<String, u64
     let npool = 2 + r.below(3);
     let nodiff_pct = if profile == "diff" { *r.pick(&[0usize, 0, 0, 10]) } else { 8 };
     let mut pool = vec![];
+    // (pool index, variable) of entries that mention the variable they may replace: `y -> 2*y`
+    let mut selfref: Vec<(usize, &str)> = vec![];
     for _ in 0..npool {
+        if profile == "subs" && r.chance(1, 4) {
+            // self-referential replacements keep the variable list of the receiver unchanged while the
+            // nested levels are re-indexed
+            let (tx, v) = *r.pick(&[("(2.0 * y)", "y"), ("(z * y)", "z"), ("(y + 1.0)", "y"), ("(x * 0.5)", "x"), ("(a + a)", "a"), ("(b * a)", "b"), ("(y * x)", "x"), ("(x - y)", "y")]);
+            selfref.push((pool.len(), v));
+            pool.push(tx.to_string());
+            continue;
+        }
         if profile == "default" && r.chance(1, 4) {
             // plain neutral elements and constants: the shortcuts of + * / pow fire on these
             pool.push(r.pick(&["0.0", "1.0", "2.0", "(1.0 - 1.0)", "(0.5 + 0.5)"]).to_string());
@@ -322,6 +332,17 @@ pub fn gen(r: &mut Rng, _tier: &str, _i: usize, stats: &mut BTreeMap<String, u64
                 } else {
                     format!("n:{}", i)
                 }
+            }
+            "s" if !selfref.is_empty() && r.chance(1, 2) => {
+                let mut m = vec![];
+                let mut seen: Vec<&str> = vec![];
+                for (k, v) in &selfref {
+                    if !seen.contains(v) && r.chance(2, 3) {
+                        seen.push(v);
+                        m.push(format!("{}={}", hex(v), k));
+                    }
+                }
+                format!("s:{}:{}", i, if m.is_empty() { "-".to_string() } else { m.join(";") })
             }
             "s" => {
                 let mut m = vec![];
